@@ -447,11 +447,26 @@ class SpecEval:
                 return forall([bv], z3.Implies(rng, body))
             return z3.Exists([bv], z3.And(rng, body))
         if name in ('forallref', 'forallstr'):
-            srt = self.m.Int if name == 'forallref' else self.m.Str
-            bv = z3.Const(args[0][1] + '!b', srt)
-            e2 = env.bind(args[0][1], bv, True)
-            body = self.eval_bool(args[1], e2)
-            return forall([bv], body)
+            # forallstr(a, body) / forallstr(a, c, body); directly nested quantifiers are merged into one
+            # (z3 does not pull nested quantifiers, and the outer one would be left without a pattern)
+            bvs = []
+            e2 = env
+            cur_name, cur_args = name, args
+            while True:
+                srt = self.m.Int if cur_name == 'forallref' else self.m.Str
+                for a in cur_args[:-1]:
+                    if a[0] != 'id':
+                        raise SpecError('bound variable expected in %s' % cur_name)
+                    bv = z3.Const(a[1] + '!b', srt)
+                    bvs.append(bv)
+                    e2 = e2.bind(a[1], bv, True)
+                body_ast = cur_args[-1]
+                if body_ast[0] == 'call' and body_ast[1][0] == 'id' and body_ast[1][1] in ('forallref', 'forallstr'):
+                    cur_name, cur_args = body_ast[1][1], body_ast[2]
+                    continue
+                break
+            body = self.eval_bool(body_ast, e2)
+            return forall(bvs, body)
         if name == 'fresh':
             v = self.eval_term(args[0], env)
             base = env.old.alloc if env.old is not None else self.ex.entry_alloc
@@ -494,6 +509,8 @@ class SpecEval:
             sd = self.ex.db.specs[name]
             if len(sd.params) != len(args):
                 raise SpecError('spec %s expects %d arguments' % (name, len(sd.params)))
+            if sd.view:
+                return self.view_call(sd, args, env)
             e2 = Env(env.frame, env.st, env.old, env.results)
             e2.loop_head = env.loop_head
             e2.loop_entry = env.loop_entry
@@ -508,6 +525,43 @@ class SpecEval:
         if h is not None:
             return h(self, env, [self.eval(a, env) for a in args])
         raise SpecError('unknown specification function %r' % name)
+
+    def view_call(self, sd, args, env):
+        """a spec function kept opaque: F(version, scalar args) with one definitional axiom per distinct
+        state it is evaluated in; quantified facts about it then match by plain E-matching"""
+        m = self.m
+        vals = [self.eval(a, env) for a in args]
+        bvars = []
+        e2 = Env(env.frame, env.st, env.old, env.results)
+        e2.loop_head = env.loop_head
+        e2.loop_entry = env.loop_entry
+        e2.vars = dict(env.vars)
+        e2.bound = env.bound
+        actual = []
+        for p, v in zip(sd.params, vals):
+            if isinstance(v, Val) and (len(v.leaves) != 1 or m.kind(v.t) in ('pointer', 'map', 'slice', 'interface', 'struct')):
+                e2.vars[p] = v           # structured argument: part of the state the view is taken of
+            else:
+                t = self.term(v)
+                bv = z3.Const('%s!v_%s' % (p, sd.name), t.sort())
+                bvars.append(bv)
+                actual.append(t)
+                e2.vars[p] = bv
+        e2.bound = e2.bound + tuple(bvars)
+        body = self.term(self.eval(sd.ast, e2))
+        key = (sd.name, body.get_id())
+        ent = self.ex.view_versions.get(key)
+        F = m.uf('view_' + sd.name, *([m.Int] + [b.sort() for b in bvars] + [body.sort()]))
+        if ent is None:
+            ver = z3.IntVal(len(self.ex.view_versions) + 1)
+            self.ex.view_versions[key] = (ver, body)
+            if bvars:
+                self.ex.axioms.append(forall(bvars, F(ver, *bvars) == body, patterns=[F(ver, *bvars)]))
+            else:
+                self.ex.axioms.append(F(ver) == body)
+        else:
+            ver = ent[0]
+        return F(ver, *actual)
 
     def bigval(self, v, env, sort):
         m = self.m
